@@ -37,7 +37,7 @@ LEVEL_TEXT = ("generated-input search over compressed real-server-like messages;
               "forwarded bytes under an independent decoder")
 LEVEL_NOTE = "trusts lib/ref_dns.py, lib/driver.py and Hypothesis' search"
 QUICK_N, THOROUGH_N = 60_000, 4_000_000
-BUDGET_S = (150, 5400)
+BUDGET_S = (240, 5400)
 
 _OPTS = None
 
